@@ -24,8 +24,9 @@ class Cache:
     cols: dict[UUID, Col]  # all columns in current scope (including hidden ones)
 
     # the following are only necessary for subquery detection
-    limit: int
+    limit: int | None  # None: no `slice_head` in the current SELECT (a limit of 0 rows is a limit, too)
     group_by: set[UUID]
+    is_aggregated: bool  # a `summarize` (with or without grouping) is part of the current SELECT
     is_filtered: bool
 
     backend: type[TableImpl]
@@ -61,6 +62,7 @@ class Cache:
             + ",\n"
             + f"  limit={self.limit},\n"
             + f"  group_by={self.group_by},\n"
+            + f"  is_aggregated={self.is_aggregated},\n"
             + f"  is_filtered={self.is_filtered},\n)"
         )
 
@@ -84,8 +86,9 @@ class Cache:
             partition_by=[],
             derived_from={node},
             cols={col._uuid: col for col in node.cols.values()},
-            limit=0,
+            limit=None,
             group_by=set(),
+            is_aggregated=False,
             is_filtered=False,
             backend=type(node),
         )
@@ -162,6 +165,7 @@ class Cache:
             res.name_to_uuid = {name: col._uuid for name, col in cols.items()}
             res.uuid_to_name = {uid: name for name, uid in res.name_to_uuid.items()}
             res.group_by = res.group_by | set(res.partition_by)
+            res.is_aggregated = True
             res.partition_by = []
 
         elif isinstance(node, verbs.SliceHead):
@@ -175,8 +179,9 @@ class Cache:
             res.uuid_to_name = {uid: name for name, uid in res.name_to_uuid.items()}
 
             res.derived_from = self.derived_from | right_cache.derived_from
-            res.limit = 0
+            res.limit = None
             res.group_by = set()
+            res.is_aggregated = False
             # the WHERE clause of the right table is moved to the joined query
             res.is_filtered = self.is_filtered or right_cache.is_filtered
 
@@ -192,8 +197,9 @@ class Cache:
             res.uuid_to_name = self.uuid_to_name.copy()
 
             res.derived_from = self.derived_from | right_cache.derived_from
-            res.limit = 0
+            res.limit = None
             res.group_by = set()
+            res.is_aggregated = False
 
         elif isinstance(node, verbs.SubqueryMarker):
             res.cols = {
@@ -206,8 +212,9 @@ class Cache:
                 )
                 for uid, col in self.cols.items()
             }
-            res.limit = 0
+            res.limit = None
             res.group_by = set()
+            res.is_aggregated = False
             res.is_filtered = False
 
         assert len(res.name_to_uuid) == len(res.uuid_to_name)
@@ -227,13 +234,13 @@ class Cache:
                 node,
                 verbs.Filter | verbs.Summarize | verbs.Arrange | verbs.GroupBy | verbs.Join | verbs.Union,
             )
-            and self.limit != 0
+            and self.limit is not None
         ):
             return f"`{node.__class__.__name__.lower()}` after `slice_head`"
 
         if (
             isinstance(node, verbs.Mutate)
-            and self.limit != 0
+            and self.limit is not None
             and any(
                 isinstance(fn, ColFn) and fn.op.ftype in (Ftype.AGGREGATE, Ftype.WINDOW) for fn in node.iter_col_nodes()
             )
@@ -263,7 +270,7 @@ class Cache:
             return "`filter` on a table containing a window function expression"
 
         if isinstance(node, verbs.Summarize):
-            if self.group_by and self.group_by != set(self.partition_by):
+            if self.is_aggregated:
                 return "nested summarize"
             if any(
                 (col.ftype(agg_is_window=False) in (Ftype.WINDOW, Ftype.AGGREGATE))
@@ -275,11 +282,12 @@ class Cache:
                 return "window function among grouping columns"
 
         if isinstance(node, verbs.Join):
-            if self.group_by:
+            if self.is_aggregated:
                 return "join with a grouped table"
 
+            # hidden columns count, too: they can still be referenced after the join
             if (node.how == "full" or (node.child not in self.derived_from and node.how == "left")) and any(
-                types.is_const(self.cols[uid].dtype()) for uid in self.uuid_to_name.keys()
+                types.is_const(col.dtype()) for col in self.cols.values()
             ):
                 return "left / full join with a table containing a constant column"
 
@@ -298,7 +306,7 @@ class Cache:
                 return "full join with a filtered table"
 
         if isinstance(node, verbs.Union):
-            if self.group_by:
+            if self.is_aggregated:
                 return "union with a grouped table"
 
             if any(self.cols[uid].ftype() == Ftype.WINDOW for uid in self.uuid_to_name.keys()):
